@@ -150,7 +150,8 @@ func (p *prog) expect(ok bool, what, expected, observed string) {
 }
 
 var c05Ints = []int{0, 1, 2, 3, -1, 7, 1 << 30, math.MaxInt, math.MinInt, -2}
-var c05Floats = []float64{0.5, 1, 2.5, -3, 1e21, 0, math.Inf(1), math.Inf(-1), math.MaxFloat64, 5e-324}
+var c05Floats = []float64{0.5, 1, 2.5, -3, 1e21, 0, math.Inf(1), math.Inf(-1), math.MaxFloat64, 5e-324,
+	float64(float32(0.1)), float64(float32(3.14)), float64(float32(1.0) / 3)} // the last three are exact float32 values without a short decimal form
 var c05Strs = []string{"a", "b", "", "zz", "a b", "é"}
 
 // scalarVal draws from a small pool so that duplicates are frequent.
@@ -410,6 +411,48 @@ func c05Pinned(p *prog, which int) {
 	}
 }
 
+// sized hands a number over in another Go numeric type that holds exactly the same value (int8 ... uint64, float32): the
+// library normalises all widths to int / float64, so the model value stays what it is.
+func (p *prog) sized(a any) any {
+	if p.r == nil || !p.r.Chance(1, 6) {
+		return a
+	}
+	switch x := a.(type) {
+	case int:
+		var cands []any
+		if x >= math.MinInt8 && x <= math.MaxInt8 {
+			cands = append(cands, int8(x))
+		}
+		if x >= 0 && x <= math.MaxUint8 {
+			cands = append(cands, uint8(x))
+		}
+		if x >= math.MinInt16 && x <= math.MaxInt16 {
+			cands = append(cands, int16(x))
+		}
+		if x >= 0 && x <= math.MaxUint16 {
+			cands = append(cands, uint16(x))
+		}
+		if int64(x) >= math.MinInt32 && int64(x) <= math.MaxInt32 {
+			cands = append(cands, int32(x))
+		}
+		if x >= 0 {
+			cands = append(cands, uint(x), uint64(x))
+			if int64(x) <= math.MaxUint32 {
+				cands = append(cands, uint32(x))
+			}
+		}
+		cands = append(cands, int64(x))
+		p.c.Count("numbers_handed_over_in_another_width")
+		return cands[p.r.Intn(len(cands))]
+	case float64:
+		if f := float32(x); float64(f) == x {
+			p.c.Count("numbers_handed_over_in_another_width")
+			return f
+		}
+	}
+	return a
+}
+
 // nativeVal: a Go map / slice (the unbound model node stands for the fresh container the library must create for it).
 func (p *prog) nativeVal(kind spec.Kind, fixed bool) model.Val {
 	o := spec.Opts{MaxDepth: 2, MaxWidth: 3, SafeKeys: true}
@@ -424,7 +467,7 @@ func c05Add(p *prog, l *model.Node, vals []model.Val) {
 	args := make([]any, len(vals))
 	wasNative := make([]bool, len(vals))
 	for i, v := range vals {
-		args[i] = argFor(p.h, v)
+		args[i] = p.sized(argFor(p.h, v))
 		wasNative[i] = v.Ref != nil && v.Ref.Real == nil
 	}
 	var ret at.List
@@ -461,7 +504,7 @@ func c05Insert(p *prog, l *model.Node, idx int, v model.Val) {
 			copy(l.E[idx+1:], l.E[idx:])
 			l.E[idx] = v
 		}
-		ret = l.List().Insert(idx, argFor(p.h, v))
+		ret = l.List().Insert(idx, p.sized(argFor(p.h, v)))
 	})
 	if !pan {
 		p.expect(p.failed || any(ret) == l.Real, "Insert-return", "the receiver", "another value")
@@ -475,7 +518,7 @@ func c05Replace(p *prog, l *model.Node, idx int, v model.Val) {
 		if !want {
 			l.E[idx] = v
 		}
-		l.List().Replace(idx, argFor(p.h, v))
+		l.List().Replace(idx, p.sized(argFor(p.h, v)))
 	})
 }
 
